@@ -106,12 +106,16 @@ def step (c : σ) (toks : List String) : σ × String :=
     match parseReq rest with
     | none => (c, "bad-op")
     | some q =>
-      match kv rest "crash" with
-      | none => let r := call id c q none; (r.1, showOut r.2)
-      | some k =>
+      match kv rest "crash", kv rest "fail" with
+      | none, none => let r := call id c q none; (r.1, showOut r.2)
+      | none, some f =>
+        -- the state file cannot be written during this call
+        if f = "1" then let r := callFail id c q; (r.1, showOut r.2) else (c, "bad-op")
+      | some k, none =>
         match k.toNat? with
         | none => (c, "bad-op")
         | some k => let r := call id c q (some k); (r.1, showOut r.2)
+      | some _, some _ => (c, "bad-op")
   | ["crash"] => ((Sign.step id c .crash).1, "ok")
   | "node" :: rest =>
     -- a whole single-validator node killed at persistence syscalls and restarted: by
